@@ -989,7 +989,7 @@ pub fn run_path(host: HostKind, path: &[Act], b: &Bounds, trace: bool) -> RunOut
             if f.iter().any(|x| x.key.starts_with("reference/")) {
                 for alt in rf.alternatives(b) {
                     let fa = check(host, &alt, &hist, &gauges, &h);
-                    if fa.iter().all(|x| x.projectable) {
+                    if !fa.iter().any(|x| x.key.starts_with("reference/")) {
                         if trace {
                             tr.push("    (a lazily released task has been polled: reference follows)".into());
                         }
@@ -1365,14 +1365,21 @@ pub fn host_child(args: &[String]) -> i32 {
     0
 }
 
-fn explore_in_processes(b: &Bounds, cap: usize, limit: f64) -> Vec<Closure> {
+/// One process per (bounds, host), all concurrently. Result: (index of the bounds, host, closure).
+fn explore_in_processes(
+    configs: &[Bounds],
+    cap: usize,
+    limit: f64,
+) -> Vec<(usize, HostKind, Closure)> {
     let exe = std::env::current_exe().expect("current_exe");
     let hosts = [HostKind::Direct, HostKind::Core, HostKind::Bridge];
     let mut children = vec![];
-    for h in hosts {
+    for (bi, b) in configs.iter().enumerate() {
+      for h in hosts {
         let out = std::env::temp_dir().join(format!(
-            "mc-bridge-c13-{}-{}.json",
+            "mc-bridge-c13-{}-{}-{}.json",
             std::process::id(),
+            bi,
             host_name(h)
         ));
         let mut cmd = std::process::Command::new(&exe);
@@ -1389,15 +1396,16 @@ fn explore_in_processes(b: &Bounds, cap: usize, limit: f64) -> Vec<Closure> {
         let child = cmd.spawn().unwrap_or_else(|e| {
             mc_kit::machinery_error(&format!("C13: cannot start a host process: {e}"))
         });
-        children.push((child, out));
+        children.push((child, out, bi, h));
+      }
     }
     let mut res = vec![];
-    for (mut child, out) in children {
+    for (mut child, out, bi, h) in children {
         let ok = child.wait().map(|s| s.success()).unwrap_or(false);
         let bytes = std::fs::read(&out).unwrap_or_default();
         let _ = std::fs::remove_file(&out);
         match (ok, serde_json::from_slice::<Closure>(&bytes)) {
-            (true, Ok(c)) => res.push(c),
+            (true, Ok(c)) => res.push((bi, h, c)),
             _ => mc_kit::machinery_error("C13: a host process failed"),
         }
     }
@@ -1406,12 +1414,30 @@ fn explore_in_processes(b: &Bounds, cap: usize, limit: f64) -> Vec<Closure> {
 
 pub fn run(tier: Tier, args: &[String]) -> i32 {
     let rep = Reporter::new("C13", tier);
+    let drop_legacy = !args.iter().any(|a| a == "--no-drop-legacy");
+    let arg_max: Option<usize> =
+        mc_kit::arg_value(args, "--max-oneshots").and_then(|s| s.parse().ok());
+    let arg_sat: Option<u8> = mc_kit::arg_value(args, "--sat").and_then(|s| s.parse().ok());
+    // thorough: two sets of app bounds - more outstanding one-shots, and counters that
+    // saturate later - each closed on its own
+    let mut configs: Vec<Bounds> = match tier {
+        Tier::Quick => vec![Bounds { max_oneshots: 2, sat: 1, drop_legacy }],
+        Tier::Thorough => vec![
+            Bounds { max_oneshots: 3, sat: 1, drop_legacy },
+            Bounds { max_oneshots: 2, sat: 2, drop_legacy },
+        ],
+    };
+    if arg_max.is_some() || arg_sat.is_some() {
+        configs = vec![Bounds {
+            max_oneshots: arg_max.unwrap_or(2),
+            sat: arg_sat.unwrap_or(1),
+            drop_legacy,
+        }];
+    }
     let b = Bounds {
-        max_oneshots: mc_kit::arg_value(args, "--max-oneshots")
-            .and_then(|s| s.parse().ok())
-            .unwrap_or(tier.pick(2, 3)),
-        sat: tier.pick(1, 2),
-        drop_legacy: !args.iter().any(|a| a == "--no-drop-legacy"),
+        max_oneshots: configs[0].max_oneshots,
+        sat: configs[0].sat,
+        drop_legacy,
     };
     let cap = mc_kit::arg_value(args, "--cap")
         .and_then(|s| s.parse().ok())
@@ -1441,12 +1467,9 @@ pub fn run(tier: Tier, args: &[String]) -> i32 {
         }
     }
     let limit = tier.pick(45.0, 780.0);
-    // one process per host, concurrently
-    let mut all = explore_in_processes(&b, cap, limit);
-    let bridge = all.pop().unwrap();
-    let core = all.pop().unwrap();
-    let direct = all.pop().unwrap();
-    for c in [&direct, &core, &bridge] {
+    // one process per (bounds, host), concurrently
+    let all = explore_in_processes(&configs, cap, limit);
+    for (_, _, c) in &all {
         for (key, what, replay, size, n) in &c.violations {
             for _ in 0..(*n).min(3) {
                 rep.violation(Violation {
@@ -1458,9 +1481,15 @@ pub fn run(tier: Tier, args: &[String]) -> i32 {
             }
         }
     }
-    let show = |c: &Closure, host: &str| {
+    let describe = |h: HostKind| match h {
+        HostKind::Bridge => "bincode Bridge over Core (derive(Effect), legacy capabilities available)",
+        HostKind::Core => "typed Core<CApp> (derive(Effect), legacy capabilities available); the harness holds the typed requests and can drop them",
+        HostKind::Direct => "harness-hosted Commands (#[effect] enum, Capabilities = ()); Command::verif_live_tasks readable",
+    };
+    let show = |bi: usize, h: HostKind, c: &Closure| {
         json!({
-            "host": host,
+            "host": describe(h),
+            "app_bounds": {"max_outstanding_one_shots": configs[bi].max_oneshots, "model_counters_saturate_at": configs[bi].sat},
             "distinct_states": c.states,
             "transitions": c.transitions,
             "steps_executed_including_prefix_replays": c.steps,
@@ -1473,28 +1502,35 @@ pub fn run(tier: Tier, args: &[String]) -> i32 {
             "findings_with_occurrences": c.violations.iter().map(|v| (v.0.clone(), v.4)).collect::<BTreeMap<_, _>>(),
         })
     };
-    if bridge.states < 2 || direct.states < 2 || core.states < 2 {
-        mc_kit::machinery_error("C13: fewer than 2 non-trivial states per host");
+    if all.iter().any(|(_, _, c)| c.states < 2) {
+        mc_kit::machinery_error("C13: fewer than 2 non-trivial states on a host");
     }
-    let mut samples = bridge.samples.clone();
-    samples.extend(direct.samples.clone());
-    samples.extend(core.samples.clone());
-    let nontrivial = bridge.states + direct.states + core.states - 3;
+    let mut samples = vec![];
+    for (_, _, c) in &all {
+        samples.extend(c.samples.iter().take(8).cloned());
+    }
+    let total_states: usize = all.iter().map(|(_, _, c)| c.states).sum();
+    let total_transitions: u64 = all.iter().map(|(_, _, c)| c.transitions).sum();
+    let nontrivial = total_states - all.len();
+    let all_closed = all.iter().all(|(_, _, c)| c.closed);
+    let hosts_json: Vec<serde_json::Value> = all.iter().map(|(bi, h, c)| show(*bi, *h, c)).collect();
+    let closed_json: Vec<serde_json::Value> = all
+        .iter()
+        .map(|(bi, h, c)| json!({"bounds": bi, "host": host_name(*h), "closed": c.closed}))
+        .collect();
     let coverage = json!({
-        "states": bridge.states + direct.states + core.states,
-        "transitions": bridge.transitions + direct.transitions + core.transitions,
-        "traces_validated_against_impl": bridge.transitions + direct.transitions + core.transitions,
-        "evaluations": bridge.transitions + direct.transitions + core.transitions,
+        "states": total_states,
+        "transitions": total_transitions,
+        "traces_validated_against_impl": total_transitions,
+        "evaluations": total_transitions,
         "distinct_nontrivial": nontrivial,
         "rule": "a merged state other than the initial one (state key = reference logical state + view + gauges)",
-        "exhaustive": bridge.closed && direct.closed && core.closed,
-        "closed": {"bridge_host": bridge.closed, "direct_host": direct.closed, "typed_core_host": core.closed},
+        "exhaustive": all_closed,
+        "closed": closed_json,
         "state_cap": cap,
-        "hosts": [show(&bridge, "bincode Bridge over Core (derive(Effect), legacy capabilities available)"),
-                  show(&core, "typed Core<CApp> (derive(Effect), legacy capabilities available); the harness holds the typed requests and can drop them"),
-                  show(&direct, "harness-hosted Commands (#[effect] enum, Capabilities = ()); Command::verif_live_tasks readable")],
+        "hosts": hosts_json,
         "action_alphabet": "ReqC (Command-API one-shot), ReqL (legacy one-shot), ReqJ (task: spawn(child awaiting a shell request); join_handle.await; event), ReqS (one task awaiting select over two shell requests), ReqA (self-aborting command: task B request -> event, task A request -> the command's own AbortHandle, no output), Respond(k) for every outstanding one-shot k (also the orphaned member of a finished select), BadAnswer(k): an undecodable answer to the k-th outstanding one-shot on the Bridge host (must be rejected; the request is used up; followed by one no-op event), Drop(k): the shell drops the k-th outstanding one-shot unresolved (Command-API requests on both hosts, legacy requests on the typed-Core host) (direct and typed-Core hosts; on the Core host followed by one no-op event = one further core call; the bridge cannot drop), Sub, Unsub (AbortHandle kept in the model), Item (stream item; also after unsubscribe and after the task ended), Render, CTimerSet / CTimerClear (TimerHandle) / CTimerFire (answer NotifyAfter, also the orphaned one) / CTimerCleared (answer Clear), LTimerSet / LTimerClear (also after the timer finished) / LTimerFire; after EVERY explored path the host is dropped",
-        "app_bounds": {"max_outstanding_one_shots": b.max_oneshots, "live_subscriptions": 1, "command_api_timers": 1, "legacy_timers": 1, "model_counters_saturate_at": b.sat},
+        "app_bounds": {"configurations (max outstanding one-shots, counters saturate at)": configs.iter().map(|c| (c.max_oneshots, c.sat)).collect::<Vec<_>>(), "live_subscriptions": 1, "command_api_timers": 1, "legacy_timers": 1},
         "state_key": "(reference: outstanding one-shots with their API in issue order, subscription phase, timer phases, expected view; gauges: registry once/many entries, executor task slots | live commands, sum of Command::verif_live_tasks, queued spawns/wake-ups/effects/events, cleared-timer-set size relative to the start of the path, live drop-tokens). Projected out because a listed finding makes them unbounded (each reported): `Never` registry entries (K3), cleared-set ids of timers cleared after they finished (K4), executor slots and tokens of legacy tasks whose request was dropped (accepted only when exactly one slot per dropped legacy request is stuck)",
         "oracle": "in every reachable state: registry once <= outstanding one-shot requests the shell holds, many <= subscriptions the shell has not been told are finished, never == 0; executor tasks / live commands / command tasks <= live pieces of work; cleared set <= cleared pending timers; live tokens <= tokens owned by live tasks (+ payloads of requests the harness holds); all queues empty after the call; after dropping the host 0 tokens; view == reference view; gauge BELOW the reference = reference error, reported under reference/*",
         "unbounded_history_argument": "the reachable set is closed under the action alphabet: every action from every reachable merged state leads to a reachable merged state, and every gauge in every such state is within its bound",
